@@ -381,3 +381,35 @@ Proof.
   intros o now1 w t H H1 H2. unfold touch_time. rewrite H.
   destruct (Z.leb_spec w now1); [lia|]. destruct (Z.ltb_spec t w); [reflexivity | lia].
 Qed.
+
+(* ---------- the log line that formats every peer ---------- *)
+Lemma first_int_error_numeric : forall oint ps, Forall (fun p => num_of (p_prio p) <> None) ps ->
+  first_int_error oint ps = None.
+Proof.
+  induction ps as [|p ps IH]; simpl; intros H; [reflexivity|].
+  inversion H as [|? ? Hp Hps]; subst.
+  destruct (p_prio p) as [| b | z | | | |]; simpl in *; try congruence; now apply IH.
+Qed.
+
+Lemma log_raises_none_numeric : forall oint c t ps, Forall (fun p => num_of (p_prio p) <> None) ps ->
+  log_raises oint c t ps = None.
+Proof.
+  intros oint c t ps H. unfold log_raises. destruct t as [[|]|]; try reflexivity.
+  destruct (_ && _); [now apply first_int_error_numeric | reflexivity].
+Qed.
+
+(* a junk priority on an EXPIRED record aborts the call after clean() and before the toggle is
+   switched, although a live equal-priority peer exists *)
+Definition log_abort_status : json :=
+  JObj [("a", JObj [("lifetime", JNum 60); ("priority", JNum 0)]);
+        ("gone", JObj [("lastseen", JStr "long ago"); ("lifetime", JNum 60); ("priority", JList [JNum 1])])].
+
+Lemma log_abort_witness :
+  let oint := fun _ : string => None in
+  let odate := fun _ : string => Some 0 in
+  let c := mkCfg "me" 0 60 "default" true in
+  (exists o, process oint odate c (Some false) (Some "default") (Some log_abort_status) 1000000 = POk (Some o)
+             /\ o_toggle o = Some true) /\
+  run_event oint odate c (Some false) (Some "default") (Some log_abort_status) 1000000 0 None None
+  = ([ObsClean ["gone"]], Some TypeError).
+Proof. split; [eexists; split; vm_compute; reflexivity | vm_compute; reflexivity]. Qed.
